@@ -245,6 +245,11 @@ fn apply_edits(doc: &str, edits: &[(u16, u8, u8)]) -> Vec<u8> {
     b
 }
 
+/// Rendered valid documents (seed corpus of the libFuzzer target).
+pub fn corpus_strategy() -> BoxedStrategy<String> {
+    spec_strategy().prop_map(|u| render(&u).xml).boxed()
+}
+
 impl Property for C20 {
     type Case = Case;
     fn id(&self) -> &'static str {
